@@ -41,6 +41,8 @@ def gen_case(rng, nmax):
             t = e + rng.randint(0, 3)
         if not an:
             an = [(0, 1)] if n >= 1 else []
+        if rng.random() < 0.4:  # anomalies need not be listed in increasing order; means / variances go with their positions in the list
+            rng.shuffle(an)
         c["anoms"] = an
         c["means"], c["vars"] = param_lists(rng, len(an), p)
     else:
@@ -248,7 +250,10 @@ def oracle(c, r):
 
 
 def outlier_cases(nmax):
-    return [{"n": n, "k": k, "p": 1 + (n + k) % 3, "index": ["range", "sliced", "datetime"][(n * 7 + k) % 3]}
+    # "build": how the frame was put together — one array, two frames concatenated column-wise, a column assigned afterwards,
+    # or an integer-typed column next to float ones (several internal blocks: `.values` is then a copy)
+    return [{"n": n, "k": k, "p": 1 + (n + k) % 3, "index": ["range", "sliced", "datetime"][(n * 7 + k) % 3],
+             "build": ["single", "concat", "assigned", "mixed"][(n * 3 + k) % 4]}
             for n in range(1, nmax + 1) for k in range(0, n + 1)]
 
 
@@ -261,10 +266,19 @@ def impl_outliers(c):
         base = pd.DataFrame(np.arange((n + 3) * p, dtype=float).reshape(n + 3, p)).iloc[3:]
     elif c["index"] == "datetime":
         base.index = pd.date_range("2020-01-01", periods=n, freq="h")
-    before = base.to_numpy().copy()
+    build = c.get("build", "single")
+    if build == "concat":
+        base = pd.concat([base, (base + 1000.0).rename(columns=lambda j: j + p)], axis=1)
+    elif build == "assigned":
+        base = base.copy()
+        base["extra"] = np.arange(n, dtype=float) * 2.0
+    elif build == "mixed":
+        base = base.copy()
+        base["count"] = np.arange(n, dtype=np.int64)
+    before = base.to_numpy().astype(float).copy()
     try:
         out = add_linspace_outliers(base.copy(), c["k"], 100.0)
-        d = out.to_numpy() - before
+        d = out.to_numpy().astype(float) - before
         rows = [int(i) for i in range(n) if np.all(d[i] == 100.0)]
         clean = bool(np.all((d == 0.0) | (d == 100.0))) and all(np.all(d[i] == 0.0) or np.all(d[i] == 100.0) for i in range(n))
         return {"outcome": "ok", "rows": rows, "clean": clean}
